@@ -479,6 +479,10 @@ def merge(repo: Repo, chk: Check) -> None:
             v = expand(s.node.value, alt.env)
             ms = [m for _, m in norm.find(T("phs.MuxOp(lhs=$l, rhs=$r, switch=$sw)"), v)] + [m for _, m in norm.find(T("MuxOp(lhs=$l, rhs=$r, switch=$sw)"), v)]
             if not ms:
+                # built in a helper that was walked at the call: follow the definitions of what it returned
+                v = fl.cone(s.node.value, s, inline=1)
+                ms = [m for _, m in norm.find(T("phs.MuxOp(lhs=$l, rhs=$r, switch=$sw)"), v)] + [m for _, m in norm.find(T("MuxOp(lhs=$l, rhs=$r, switch=$sw)"), v)]
+            if not ms:
                 fresh_all = False
                 continue
             m = ms[0]
